@@ -955,13 +955,38 @@ def match_known(pid, w, known):
 
 
 def replay(pid, P, path):
+    """Re-runs the stored input: through correspondence A (expansion vs model) and, when it is a compilable macro invocation of the B
+    harness, through the real macro (result + event log), next to what the reference semantics expects."""
     r = json.load(open(path))
-    print(json.dumps(r, indent=1)[:4000])
     w = r.get('witness')
+    print('property %s; replay file %s' % (pid, path))
+    for b in r.get('broken', []):
+        print('  no longer checks: %s' % json.dumps(b)[:400])
     if not w:
-        print('no concrete input stored: the replay names the theorem/correspondence that no longer checks')
+        print('no concrete input stored: the replay names the theorem / correspondence that no longer checks (no-failing-input-found)')
         return 1
-    kind = [k for k, v in gen.KIND_NAME.items() if v == w['macro']][0]
-    res = jv.corr_A_gen([('r', kind, w['dsl'])], tag='replay')
-    print('A (expansion) status on the stored input: %s code=%s' % (res[0]['status'], res[0].get('code')))
+    print('stored witness: macro=%s\n  dsl: %s\n  why: %s' % (w.get('macro'), w.get('dsl'), w.get('why')))
+    names = dict((v, k) for k, v in gen.KIND_NAME.items())
+    names.update({v: k for k, v in ALIAS.items()})
+    kind = names.get(w.get('macro'))
+    ok, out = jv.build_implrun()
+    if kind and ok:
+        try:
+            res = jv.corr_A_gen([('r', kind, w['dsl'])], tag='replay')
+            print('A (implementation expansion vs model) on the stored input: %s' % res[0]['status'])
+        except Exception as ex:
+            print('A could not be run on the stored input: %s' % ex)
+    if kind and 'expected_by_spec' in w:
+        mode = 'async' if kind[0] == '1' else 'sync'
+        try:
+            obs, fails = rt.build_and_run('replay', [('0', w['macro'], w['dsl'], mode)])
+            if '0' in obs:
+                lg = [e for e in obs['0'][1] if e != 'POLL']
+                print('expected by the reference semantics: %s' % w['expected_by_spec'])
+                print('observed now                       : %s %s' % (obs['0'][0], ' '.join(canon_log(lg))))
+                print('REPRODUCED' if ([obs['0'][0]] + canon_log(lg)) != w['expected_by_spec'].split(' ') else 'NOT REPRODUCED (the implementation now agrees with the reference semantics on this input)')
+            else:
+                print('the stored program does not compile now: %s' % fails.get('0'))
+        except Exception as ex:
+            print('B could not be run on the stored input: %s' % str(ex)[:300])
     return 0
